@@ -231,6 +231,7 @@ class Bench:
                 else:
                     m = E.integrate_elementwise(Js, degree=self.deg)
                 numpy.add.at(out['m_el'], owner, m)
+                out['m_edge'] = numpy.asarray(m)
             out['total'] = float(out['m_el'].sum())
             return out
         return self._get('edges', topo, geom, fn)
@@ -663,9 +664,64 @@ class Monitors:
                     self.res.count('monitor/element_closure')
                     self.cmp('element closure', 'int n dS over the boundary of each element', e['z_el'], numpy.zeros_like(e['z_el']), s)
                     self.cmp('element closure', 'int x.n dS over the boundary of each element vs dim*vol(element)', e['f_el'], D * v['vol_e'], s)
+        # (iii-b) trimmed topologies: the ledger must close per element, and an interface cannot be larger than what either neighbour keeps
+        if b is not None and hasattr(topo, 'transforms') and pairs is not None and len(topogen.cut_elements(topo)):
+            e = self.bench.edges(topo, geom, geom0)
+            if e is not None and 'm_edge' in e:
+                self.trimmed_faces(topo, geom, geom0, b, i, e, pairs, conn, s)
         # (iv) connectivity table against the interfaces
         if pairs is not None and conn is not None:
             self.connectivity_pairs(topo, conn, pairs)
+
+    def trimmed_faces(self, topo, geom, geom0, b, i, e, pairs, conn, s):
+        """On a topology with trimmed elements: (1) per element, the measure of its own edges equals the measure of the boundary pieces it owns
+        plus the measure of the interfaces it takes part in (so interfaces can neither overlap the boundary nor each other, and compensating
+        errors between elements are excluded); (2) the interfaces between two elements are not larger than the part of the shared face that
+        EITHER of them keeps (the interface is the intersection of both kept parts); counts the faces whose two neighbours keep different parts."""
+        from nutils import function
+        from collections import defaultdict
+        Js = function.J(geom0 if self.bench.quad else geom)
+        B, I = b['topo'], i['topo']
+        n = len(topo)
+        tr = topo.transforms
+        acc = numpy.zeros(n)
+        self.res.count('integrals', 2)
+        if len(B):
+            for t, m in zip(B.transforms, B.integrate_elementwise(Js, degree=self.bench.deg)):
+                acc[tr.index_with_tail(t)[0]] += m
+        ipair = defaultdict(float)
+        if len(I):
+            for (ia, io), m in zip(pairs, I.integrate_elementwise(Js, degree=self.bench.deg)):
+                acc[ia] += m
+                acc[io] += m
+                ipair[(ia, io)] += float(m)
+        self.res.count('monitor/trimmed_element_face_ledger')
+        self.cmp('face-measure ledger', 'per element of a trimmed topology: |de| vs its boundary pieces + its interfaces', e['m_el'], acc, s)
+        if conn is None or self.bench.periodic:
+            return
+        offsets = numpy.cumsum([0] + [r.nedges for r in topo.references])
+        where = {int(g): k for k, g in enumerate(e['sel'])}
+        medge = lambda ie, k: float(e['m_edge'][where[int(offsets[ie] + k)]]) if int(offsets[ie] + k) in where else 0.
+        tol = 1e-9 * s
+        for ie, row in enumerate(conn):
+            for k, je in enumerate(row):
+                je = int(je)
+                if je <= ie:
+                    continue
+                ks = [kk for kk, ii in enumerate(conn[je]) if int(ii) == ie]
+                if len(ks) != 1 or sum(1 for ii in row if int(ii) == je) != 1:
+                    continue   # doubly connected pair: ambiguous
+                ma, mb = medge(ie, k), medge(je, ks[0])
+                self.res.count('trimmed_faces_examined')
+                if abs(ma - mb) > tol:
+                    self.res.count('trimmed_faces_different_parts')   # the two neighbours keep different parts of their shared face
+                    self.res.count('trimmed_faces_smaller_on_lower' if ma < mb else 'trimmed_faces_smaller_on_higher')
+                got = ipair.get((ie, je), 0.)
+                if got > min(ma, mb) + max(tol, 1e-5 * s * 0):
+                    if tolerance.compare(numpy.asarray(got), numpy.asarray(min(ma, mb)), scale=s, check_kind=False)[0] == tolerance.VIOLATION:
+                        self.fail('interfaces', f'interface between elements {ie} and {je} has measure {got:.9g}, more than the part of the shared face kept by '
+                                                f'{"the former" if ma < mb else "the latter"} ({ma:.9g} / {mb:.9g}): not the intersection of both kept parts')
+                        return
 
     def periodic_jumps(self, jumps, step):
         ticks = topogen.mesh_ticks(self.h['mesh'])
@@ -1386,6 +1442,8 @@ def finalize(m, tier, seed):
                scenarios={k[9:]: v for k, v in c.items() if k.startswith('scenario/')},
                known_findings={k[14:]: v for k, v in c.items() if k.startswith('known_finding/')},
                negated_trim={k: c.get(k, 0) for k in ('negated_trim_identical_to_complement', 'negated_trim_differs_from_complement', 'negated_trim_skipped_degenerate_levelset')},
+               trimmed_faces=dict(examined=c.get('trimmed_faces_examined', 0), different_parts=c.get('trimmed_faces_different_parts', 0),
+                                  smaller_on_lower_element=c.get('trimmed_faces_smaller_on_lower', 0), smaller_on_higher_element=c.get('trimmed_faces_smaller_on_higher', 0)),
                cut_slivers=dict(trims=c.get('trims_with_cut_slivers', 0), pieces=c.get('cut_sliver_pieces', 0)),
                trim=dict(maxrefine={k[15:]: v for k, v in c.items() if k.startswith('trim_maxrefine/')}, with_cut_elements=c.get('trims_with_cut', 0),
                          without_cut_elements=c.get('trims_without_cut', 0), cut_elements=c.get('trim_cut_elements', 0),
@@ -1395,7 +1453,7 @@ def finalize(m, tier, seed):
     mon = cov['monitors']
     inc = None
     need = ['refine_elementwise', 'selection_elementwise', 'trim_partition', 'trim_elementwise', 'trim_cut_nonempty', 'closure_normal', 'closure_flux',
-            'interfaces_resolved', 'face_ledger', 'element_closure', 'connectivity', 'connectivity_centroids', 'connectivity_subset_model', 'connectivity_vs_interfaces',
+            'interfaces_resolved', 'face_ledger', 'trimmed_element_face_ledger', 'element_closure', 'connectivity', 'connectivity_centroids', 'connectivity_subset_model', 'connectivity_vs_interfaces',
             'trim_union', 'negated_trim', 'periodic_jumps']
     from vlib.runner import scaled
     floor = scaled(20 if tier == 'quick' else 200)
@@ -1412,6 +1470,8 @@ def finalize(m, tier, seed):
         inc = f"{cov['marginal']} of {cov['comparisons']} comparisons fell in the marginal band"
     elif sum(cov['scenarios'].values()) < scaled(15 if tier == 'quick' else 100):
         inc = f"periodic-slice scenarios barely sampled: {cov['scenarios']}"
+    elif min(cov['trimmed_faces']['smaller_on_lower_element'], cov['trimmed_faces']['smaller_on_higher_element']) < scaled(4 if tier == 'quick' else 40):
+        inc = f"trimmed faces whose two neighbours keep different parts barely reached: {cov['trimmed_faces']}"
     elif cov['dimensions'].get('3', 0) < scaled(10):
         inc = '3-D histories barely sampled'
     return dict(coverage=cov, inconclusive=inc)
